@@ -37,7 +37,7 @@ BUDGET_S = {"quick": 80, "thorough": 1500}
 
 
 def gen_cases(seed, tier):
-    n = 200 if tier == "quick" else 6000
+    n = 320 if tier == "quick" else 6000
     out = []
     for i in range(n):
         ss = stream_seeds(seed, ID, i)
